@@ -17,7 +17,7 @@
    tools/props/c18.py only. *)
 From Coq Require Import String.
 From Sakura.Model Require Import Base Cursor Token LexCore.
-From Sakura.Proofs Require Import LayoutP.
+From Sakura.Proofs Require Import LayoutP LocalityP.
 Open Scope list_scope.
 Open Scope Z_scope.
 
@@ -179,6 +179,108 @@ Example C18_example :
   (exists ls', lex (mkLex 96 [] [] []) ([65347] ++ zs "4") 0 = Ok ([TLineNo 0; TNote 0 0 0 (zs "4") 0 (-1) ISIZE_MIN (-1) 0], ls')).
 Proof. repeat split; try (vm_compute; reflexivity); eexists; vm_compute; reflexivity. Qed.
 
+(* ================================================================================================== *)
+(* LOCALITY (proofs/LocalityP.v).  A reader - and one whole iteration of the loop - that stops AT the character that follows a
+   command has not looked beyond it: what comes after that character plays no role.  The side conditions are computable
+   on the command text:
+     text_ok cmd c0   no line break in cmd, and no suffix of cmd ++ [c0] is a proper prefix of a multi-character pattern of the
+                      readers (LocalityP.PATS: "++" "--" "/*" "//" "*/" "0x" "0o" "Add" "2Add" ".onTime" ".T" ".s(" "End" "END"
+                      "##" "# " "#-" "///" "/**") - such a test would look beyond the end of the text;
+     sep_ok c0 t      if c0 is a line break, no '^' follows it after blanks / line breaks / comments (the documented continuation
+                      of a length);
+   and the PREMISE of every statement is itself a computation on the small text cmd ++ [c0]: the reader, run on the command
+   followed by NOTHING BUT the one character c0, stops exactly at c0.  That premise is what carves out the documented
+   exceptions, reader by reader: it fails for `c` + blank (the blank is eaten looking for a length: `c 4` is c4), for `@5` +
+   blank (an open expression argument goes on), for `[` + blank (a count may follow), for `c` + '#' (a sharp), for `TrackSync`
+   + blank (an argument list may follow) ... and it holds for `o5` `v100` `[3` `TR(2)` `@5;` and for every command before a
+   ';', a CR-less line break etc.  c0 may be ANY character (a separator, or the first character of the next command). *)
+
+(* lettered notes, in full (accidentals, length, ,q,v,t,o parameters, the tie mark) *)
+Theorem C18_read_note_local : forall (z : Z) (cmd : list Z) (c0 : Z) (t : list Z) (ln : Z) (tk : tok) (ln1 : Z),
+  read_note z (cmd ++ [c0]) ln = (tk, [c0], ln1) -> text_ok cmd c0 = true -> sep_ok c0 t = true ->
+  read_note z (cmd ++ c0 :: t) ln = (tk, c0 :: t, ln1).
+Proof. exact (fun z => local3 tok (read_note z) (fun c0 t Hlf e ln X => read_note_loc c0 t Hlf z e ln X)). Qed.
+(* rests, chord ends with length / gate / velocity suffix, key flags *)
+Theorem C18_read_rest_local : forall (cmd : list Z) (c0 : Z) (t : list Z) (ln : Z) (tk : tok) (ln1 : Z),
+  read_rest (cmd ++ [c0]) ln = (tk, [c0], ln1) -> text_ok cmd c0 = true -> sep_ok c0 t = true ->
+  read_rest (cmd ++ c0 :: t) ln = (tk, c0 :: t, ln1).
+Proof. exact (local3 tok read_rest read_rest_loc). Qed.
+Theorem C18_read_harmony_end_local : forall (cmd : list Z) (c0 : Z) (t : list Z) (ln : Z) (tk : tok) (ln1 : Z),
+  read_harmony_end (cmd ++ [c0]) ln = (tk, [c0], ln1) -> text_ok cmd c0 = true -> sep_ok c0 t = true ->
+  read_harmony_end (cmd ++ c0 :: t) ln = (tk, c0 :: t, ln1).
+Proof. exact (local3 tok read_harmony_end read_harmony_end_loc). Qed.
+(* n-notes, l o v q t (literal values and the reservation forms), loop brackets with or without a count, p *)
+Theorem C18_readers_local : forall (tb : Z) (cmd : list Z) (c0 : Z) (t : list Z) (ln : Z), text_ok cmd c0 = true -> sep_ok c0 t = true ->
+  (forall tk ln1, read_note_n tb (cmd ++ [c0]) ln = Ok (tk, [c0], ln1) -> read_note_n tb (cmd ++ c0 :: t) ln = Ok (tk, c0 :: t, ln1)) /\
+  (forall tk ln1, read_length tb (cmd ++ [c0]) ln = Ok (tk, [c0], ln1) -> read_length tb (cmd ++ c0 :: t) ln = Ok (tk, c0 :: t, ln1)) /\
+  (forall tk ln1, read_octave tb (cmd ++ [c0]) ln = Ok (tk, [c0], ln1) -> read_octave tb (cmd ++ c0 :: t) ln = Ok (tk, c0 :: t, ln1)) /\
+  (forall tk ln1, read_velocity tb (cmd ++ [c0]) ln = Ok (tk, [c0], ln1) -> read_velocity tb (cmd ++ c0 :: t) ln = Ok (tk, c0 :: t, ln1)) /\
+  (forall tk ln1, read_qlen tb (cmd ++ [c0]) ln = Ok (tk, [c0], ln1) -> read_qlen tb (cmd ++ c0 :: t) ln = Ok (tk, c0 :: t, ln1)) /\
+  (forall tk ln1, read_timing tb (cmd ++ [c0]) ln = Ok (tk, [c0], ln1) -> read_timing tb (cmd ++ c0 :: t) ln = Ok (tk, c0 :: t, ln1)) /\
+  (forall tk ln1, read_loop tb (cmd ++ [c0]) ln = Ok (tk, [c0], ln1) -> read_loop tb (cmd ++ c0 :: t) ln = Ok (tk, c0 :: t, ln1)) /\
+  (forall big tk ln1, read_pitch_bend big tb (cmd ++ [c0]) ln = Ok (tk, [c0], ln1) -> read_pitch_bend big tb (cmd ++ c0 :: t) ln = Ok (tk, c0 :: t, ln1)).
+Proof. exact readers_local. Qed.
+
+(* ONE ITERATION OF THE LOOP, every arm at once (all readers above, the upper-case commands with their argument lists - TR CH @
+   Tempo KeyShift TrackKey TIME TimeSignature PlayFrom ... -, controllers, reservations, PLAY, STR, macro definitions and calls,
+   the block commands {..} Sub{..} Div{..} Rhythm{..} with their recursive lex, comments, the single-character commands):
+   `arm` is the iteration (LocalityP.ARMG, a generated copy of the loop body with its continuation made explicit;
+   C18_loop_is_arm).  If the iteration, run on the command followed by its first separator c0 alone, stops exactly at c0 and
+   writes nothing to the log (an error entry quotes the following text), then in ANY text it reads the command the same and the
+   loop goes on at c0 in the same state.  cmd_ok = text_ok for the text as written and with its first character in ASCII form. *)
+Theorem C18_loop_is_arm : forall sublex n ls s ln h acc,
+  LOOPG sublex (S n) ls s ln h acc = after (fun x => x) (LOOPG sublex n) (arm sublex ls s ln h acc).
+Proof. exact LOOPG_arm. Qed.
+Theorem C18_command_local : forall f n ls (c : Z) (cmd : list Z) (c0 : Z) (t : list Z) ln h acc ls1 ln1 h1 acc1,
+  arm (lex_f f) ls (c :: cmd ++ [c0]) ln h acc = Next ls1 [c0] ln1 h1 acc1 ->
+  cmd_ok c cmd c0 = true -> sep_ok c0 t = true -> lx_logs ls1 = lx_logs ls ->
+  LOOP f (S n) ls (c :: cmd ++ c0 :: t) ln h acc = LOOP f n ls1 (c0 :: t) ln1 h1 acc1.
+Proof. exact loop_cmd_local. Qed.
+
+(* PROGRAMS.  A program is a list of complete command texts, each followed by a (possibly empty) layout: any separators and
+   comments (litem).  `runs` reads the commands ONE BY ONE, EACH IN ISOLATION - the iteration is run on the command text
+   followed by nothing but the one character that follows it in the program, from the state the commands before it have led to
+   - and lets the loop consume the layouts (C18_layout_insensitive).  The whole lexer on the whole text gives exactly the
+   tokens and the lexer state of these isolated runs: the lexer is compositional at command boundaries.  Hence two layouts of
+   the same commands give the same tokens (up to LineNo / Comment) as soon as the isolated runs agree - finitely many small
+   computations, as in C18_layout_example.
+   PARTIAL in this sense: (1) the isolated run of each command against its own first separator is a premise (checked by
+   computation), it is not shown to be the same for every separator; in particular the line numbers stored in tokens (macro
+   calls, PLAY, the LineNo tokens inside a block) differ when the layouts have different line breaks in front of them;
+   (2) a command followed directly by a comment opener ('/' would be a proper prefix of "/*") or ending in a proper prefix of a
+   pattern is outside text_ok; (3) commands that write to the log (unknown words / characters, a missing ')') are outside. *)
+Theorem C18_runs_loop : forall f ls ln h acc (p : cprog) rest ls' ln' h' acc',
+  runs f ls ln h acc p rest ls' ln' h' acc' ->
+  forall n, LOOP f (cfuel p + n) ls (print_cprog p ++ rest) ln h acc = LOOP f n ls' rest ln' h' acc'.
+Proof. exact runs_loop. Qed.
+Theorem C18_lex_compositional_partial : forall (its0 : list litem) (p : cprog) ls ln ls' ln' h' acc',
+  forallb litem_ok its0 = true -> forallb is_layout its0 = true ->
+  lex_pre (print_items its0 ++ print_cprog p) = false ->
+  runs (length (print_items its0 ++ print_cprog p)) ls (ln + items_lines its0) false ([TLineNo ln] ++ items_toks ln its0) p [] ls' ln' h' acc' ->
+  lex ls (print_items its0 ++ print_cprog p) ln = Ok (acc', ls').
+Proof. exact lex_cprog. Qed.
+
+(* sixteen commands - o5 l8 c4,50 d TR(2) [3 e ] ' c e '4 @5 Sub{c} v100 r - in two layouts:
+     o5;l8 LF c4,50 d LF TR(2) [3 e] 'ce'4 @5;Sub{c} v100 r
+     o5 CR LF l8;;c4,50 d|TR(2) LF [3 TAB e] 'ce'4 @5;Sub{c} /*x*/v100 // end LF r
+   both satisfy `runs` (each command is read in isolation against its own first separator), the lexer's answer follows by the
+   theorem, and the tokens agree up to the LineNo tokens *)
+Example C18_layout_example :
+  (exists ls' ln' h' acc', runs (length (print_cprog ex_A)) ls00 0 false [TLineNo 0] ex_A [] ls' ln' h' acc') /\
+  (exists ls' ln' h' acc', runs (length (print_cprog ex_B)) ls00 0 false [TLineNo 0] ex_B [] ls' ln' h' acc') /\
+  (exists tA tB lsA lsB, lex ls00 (print_cprog ex_A) 0 = Ok (tA, lsA) /\ lex ls00 (print_cprog ex_B) 0 = Ok (tB, lsB) /\
+     erase_lineno tA = erase_lineno tB /\ (length (erase_lineno tA) = 16)%nat).
+Proof. exact (conj ex_runs_A (conj ex_runs_B ex_same)). Qed.
+(* the premise carves out the documented exceptions: run on the command and ONE following character, the reader does not stop
+   at that character for  c + blank (a length may follow),  c + '#' (a sharp),  l4 + '|' (bar lines are skipped inside a
+   length),  and it does for  o5 + blank,  c + ';',  v100 + '|' *)
+Example C18_exceptions :
+  snd (fst (read_note 99 (zs " ") 0)) = [] /\ snd (fst (read_note 99 (zs "#") 0)) = [] /\
+  (exists x, read_length 96 (zs "4|") 0 = Ok (x, [], 0)) /\
+  (exists x, read_octave 96 (zs "5 ") 0 = Ok (x, zs " ", 0)) /\ snd (fst (read_note 99 (zs ";") 0)) = zs ";" /\
+  (exists x, read_velocity 96 (zs "100|") 0 = Ok (x, zs "|", 0)).
+Proof. repeat split; try (eexists; vm_compute; reflexivity); vm_compute; reflexivity. Qed.
+
 Print Assumptions C18_loop_is_lex.
 Print Assumptions C18_loop_is_lex_plain.
 Print Assumptions C18_separator_step.
@@ -191,3 +293,11 @@ Print Assumptions C18_fullwidth_command_char.
 Print Assumptions C18_dispatch_on_zen2han.
 Print Assumptions C18_note_reader_partial.
 Print Assumptions C18_notes_layout_partial.
+Print Assumptions C18_read_note_local.
+Print Assumptions C18_read_rest_local.
+Print Assumptions C18_read_harmony_end_local.
+Print Assumptions C18_readers_local.
+Print Assumptions C18_loop_is_arm.
+Print Assumptions C18_command_local.
+Print Assumptions C18_runs_loop.
+Print Assumptions C18_lex_compositional_partial.
